@@ -279,7 +279,8 @@ def long_histories(ctx, wd, apps, proxy, target, do_request, headers_for):
         ctx.drift_at({"history": t["events"][:prefix + 1]}, "the decision rule of Conditional.tla", t["events"][prefix] if prefix < len(t["events"]) else None,
                      "recorded history departs from the decision rule of Conditional.tla at event %d" % (prefix + 1))
     ctx.sample({"long_history_steps": len(traces[0]["events"]), "first_events": traces[0]["events"][:5], "histories": len(traces)})
-    binding_selftest(ctx, wd, good, tk)
+    if ctx.conforming() and not rejected2:
+        binding_selftest(ctx, wd, good, tk)
 
 
 def binding_selftest(ctx, wd, traces, tk):
